@@ -14,6 +14,7 @@ Inductive oacc :=
 | OIds (l : list Z)        (* ids of the objects returned, in order *)
 | ONoneV                   (* SingleJoin gave None *)
 | OOneV (i : Z)            (* SingleJoin gave the object with this id *)
+| OSel (l : list Z) (n : Z)  (* ManyToMany / OneToMany wrapper: ids of the iteration, and .count() *)
 | OErr (e : Z).            (* 1 SQLObjectNotFound, 2 RecursionError, 3 database error, 0 anything else *)
 
 (* To keep the cases files small an observation is sent as a difference to
@@ -22,7 +23,7 @@ Inductive oacc :=
    full observation is rebuilt here before anything is compared. *)
 Definition otab := list (Z * list (option Z)).    (* (id, [k0; k1; k2; a_id]) ORDER BY id *)
 Record stepobs := {
-  so_status : Z;                          (* 0 done, 1 SQLObjectNotFound, 2 DuplicateEntryError, 9 other *)
+  so_status : Z;                          (* 0 done, 1 SQLObjectNotFound, 2 DuplicateEntryError, 4 TypeError and 9 other: no model status has these codes *)
   so_tabs : list (option otab);           (* A, B, P *)
   so_links : list (option (list (Z * Z)));(* lab, lap, lpp ORDER BY rowid *)
   so_acc : list (Z * Z * oacc)            (* (accessor number, owner id, result) *)
@@ -31,7 +32,8 @@ Record full := { f_tabs : list otab; f_links : list (list (Z * Z)); f_acc : list
 Definition full0 : full := {| f_tabs := [[]; []; []]; f_links := [[]; []; []]; f_acc := [] |}.
 
 Record case := {
-  c_ord : list order;        (* orderBy of bs/bsq, rbs/rbsq, ps/psq, ras/rasq, fr/frq, of/ofq *)
+  c_def : list order;        (* sqlmeta.defaultOrder of A, B, P *)
+  c_ord : list jorder;       (* orderBy of bs/bsq, rbs/rbsq, ps/psq, ras/rasq, fr/frq, of/ofq (JDefault: not given) *)
   c_ops : list op;
   c_obs : list stepobs
 }.
@@ -44,7 +46,12 @@ Definition repr_eqb (a b : Z * list (option Z)) : bool := (fst a =? fst b) && li
 Definition status_code (st : status) : Z :=
   match st with SOk => 0 | SNotFound => 1 | SDuplicate => 2 end.
 
-Definition ord (c : case) (n : nat) : order := nth n (c_ord c) ONone.
+Definition dflt (c : case) (k : cls) : order :=
+  nth (match k with CA => 0 | CB => 1 | CP => 2 end)%nat (c_def c) ONone.
+(* the effective ordering of join pair n: its own orderBy, or the defaultOrder of the class it returns *)
+Definition ord (c : case) (n : nat) : order :=
+  effective (dflt c (match n with 0 | 1 => CB | 3 => CA | _ => CP end)%nat) (nth n (c_ord c) (JGiven ONone)).
+Definition jP_mas := {| j_link := LAP; j_side := Second |}.   (* P's view of the A--P table: only the ManyToMany declares it *)
 
 Definition list_match (r : jres (list row)) (o : oacc) : bool :=
   match r, o with
@@ -60,11 +67,16 @@ Definition sql_match (keys : list skey) (r : jres (list row)) (o : oacc) : bool 
   | JDbError, OErr 3 => true
   | _, _ => false
   end.
-Definition single_match (r : option row) (o : oacc) : bool :=
-  match r, o with
-  | None, ONoneV => true
-  | Some x, OOneV i => r_id x =? i
-  | _, _ => false
+Definition single_match (d : order) (s : state) (a : Z) (o : oacc) : bool :=
+  match o with
+  | ONoneV => single_first_b d s a None
+  | OOneV i => single_first_b d s a (Some i)
+  | _ => false
+  end.
+Definition sel_match (d : order) (cands : list row) (o : oacc) : bool :=
+  match o with
+  | OSel q n => sql_rows_b (order_keys d) cands q && (n =? Z.of_nat (length cands))
+  | _ => false
   end.
 
 Definition acc_match (c : case) (s : state) (a : Z * Z * oacc) : bool :=
@@ -72,7 +84,7 @@ Definition acc_match (c : case) (s : state) (a : Z * Z * oacc) : bool :=
   match n with
   | 0 => list_match (multiple_join (ord c 0) s i) o
   | 1 => sql_match (order_keys (ord c 0)) (sql_multiple (ord c 0) s i) o
-  | 2 => single_match (single_join s i) o
+  | 2 => single_match (dflt c CB) s i o
   | 3 => list_match (related_join jA_rbs (ord c 1) s i) o
   | 4 => sql_match (order_keys (ord c 1)) (sql_related jA_rbs (ord c 1) s i) o
   | 5 => list_match (related_join jA_ps (ord c 2) s i) o
@@ -83,6 +95,11 @@ Definition acc_match (c : case) (s : state) (a : Z * Z * oacc) : bool :=
   | 10 => sql_match (order_keys (ord c 4)) (sql_related jP_fr (ord c 4) s i) o
   | 11 => list_match (related_join jP_of (ord c 5) s i) o
   | 12 => sql_match (order_keys (ord c 5)) (sql_related jP_of (ord c 5) s i) o
+  | 13 => sel_match (dflt c CB) (m2m_cands jA_rbs s i) o        (* A.mbs  ManyToMany over lab *)
+  | 14 => sel_match (dflt c CB) (o2m_cands s i) o               (* A.obs  OneToMany over B.a_id *)
+  | 15 => sel_match (dflt c CA) (m2m_cands jB_ras s i) o        (* B.mas  ManyToMany over lab, other side *)
+  | 16 => sel_match (dflt c CA) (m2m_cands jP_mas s i) o        (* P.mas  ManyToMany over lap, the side no RelatedJoin declares *)
+  | 17 => sel_match (dflt c CP) (m2m_cands jP_fr s i) o         (* P.mfr  ManyToMany over lpp *)
   | _ => false
   end.
 
@@ -95,9 +112,9 @@ Fixpoint patch {X : Type} (prev : list X) (d : list (option X)) : list X :=
 
 (* every accessor of every live object, in the order the harness reads them *)
 Definition reads_of (a b p : list Z) : list (Z * Z) :=
-  flat_map (fun i => map (fun n => (n, i)) [0; 1; 2; 3; 4; 5; 6]) a ++
-  flat_map (fun i => map (fun n => (n, i)) [7; 8]) b ++
-  flat_map (fun i => map (fun n => (n, i)) [9; 10; 11; 12]) p.
+  flat_map (fun i => map (fun n => (n, i)) [0; 1; 2; 3; 4; 5; 6; 13; 14]) a ++
+  flat_map (fun i => map (fun n => (n, i)) [7; 8; 15]) b ++
+  flat_map (fun i => map (fun n => (n, i)) [9; 10; 11; 12; 16; 17]) p.
 Definition expected_reads (s : state) : list (Z * Z) := reads_of (ids (tA s)) (ids (tB s)) (ids (tP s)).
 Definition observed_reads (t : list otab) : list (Z * Z) :=
   reads_of (map fst (nth 0 t [])) (map fst (nth 1 t [])) (map fst (nth 2 t [])).
